@@ -16,7 +16,7 @@ Has(f) == f \in DOMAIN Ev
 Fld(f, d) == IF Has(f) THEN Ev[f] ELSE d
 
 Dummy == [id |-> "-", nf |-> 0, off |-> <<>>, span |-> <<>>, pre |-> <<>>, prf |-> <<>>, prio |-> <<>>, lm |-> "none", loff |-> 0,
-          size |-> 1, cs |-> 1, cfg |-> 0, thr |-> 0, f0 |-> <<>>, rd |-> <<>>, ro |-> 2, pt |-> <<>>, free |-> FALSE, np |-> 0, nw |-> 0, nb |-> 0, tmo |-> 1000]
+          size |-> 1, cs |-> 1, cfg |-> 0, thr |-> 0, f0 |-> <<>>, rd |-> <<>>, ro |-> 2, pt |-> <<>>, free |-> FALSE, haslst |-> FALSE, np |-> 0, nw |-> 0, nb |-> 0, tmo |-> 1000]
 Slack == 10000     \* ms a wait may exceed the configured timeout by (scheduling noise on a loaded machine: 4.6 s were seen at
                    \* load 25 next to race-instrumented megabyte reads), far below "blocks forever"
 
@@ -70,6 +70,9 @@ MonCompletes ==
     \* ("hung": the call had not come back when the driver's patience ended - reported as inconclusive, not judged here)
     /\ (last.act \in {"BlobCache", "ReaderCache", "BgFinish"} /\ last.want = "ok" /\ last.r # "hung") => last.r = "ok"
     /\ (last.act = "PrefetchEnd" /\ last.want = "ok" /\ last.res # "hung") => last.res = "ok"
+
+\* Prefetch!SuccessMeansCached on the chunk-cache state probed on disk (where the cache is a directory)
+MonSuccessMeansCached == sc.haslst => SuccessMeansCached
 
 \* Wait returns nil only when that is due (Prefetch!WaitNilOnlyIfEndedOrAsync on the recorded states: the waiter
 \* channel is probed after every step, wc holds the recorded wait outcomes, Effective is computed from the measured
